@@ -190,8 +190,9 @@ def run_check(mod, pid, tier, seed, t0, update_baseline):
     ev = {"property_id": pid, "tier": tier, "seed": seed, "level": level_run, "coverage": cov,
           "assumptions": sorted(f"{k}: {v}" for k, v in T.ASSUMPTIONS.items()) + bundle.get("assumptions", []),
           "wall_s": round(wall, 2), "violations": len(violations)}
-    os.makedirs(os.path.join(ROOT, "evidence"), exist_ok=True)
-    json.dump(ev, open(os.path.join(ROOT, "evidence", f"{pid}.json"), "w"), indent=1, default=str)
+    evdir = os.environ.get("VERIF_EVIDENCE_DIR") or os.path.join(ROOT, "evidence")
+    os.makedirs(evdir, exist_ok=True)
+    json.dump(ev, open(os.path.join(evdir, f"{pid}.json"), "w"), indent=1, default=str)
     for l in known_lines + undecided_lines + violations:
         print(l)
     print(f"{pid}: obligations={n_obl} discharged={n_dis} undecided={len(undecided_lines)} known={len(known_lines)} "
